@@ -732,6 +732,14 @@ func (ex *extractor) decisions(f *Facts) {
 			f.Decisions["sortCompare"] = append(f.Decisions["sortCompare"], stmtText(st))
 		}
 	}
+	// GETVAR / SETVAR: the statements of the two functions (C20's register machine is written after them)
+	for _, fn := range []string{"GetVarFunc", "SetVarFunc"} {
+		if fd := ex.funcs[fn]; fd != nil && fd.Body != nil {
+			for _, st := range fd.Body.List {
+				f.Decisions["vars"] = append(f.Decisions["vars"], fn+": "+stmtText(st))
+			}
+		}
+	}
 	// strategy selection of a join: which of the three loops runs, on which sides, sequentially or in parallel
 	for _, fn := range []string{"Join.Exec", "Join.StraightJoin", "Join.Join", "Join.HashJoin"} {
 		if fd := ex.funcs[fn]; fd != nil && fd.Body != nil {
@@ -1697,7 +1705,7 @@ func main() {
 		}
 		sb.WriteString("def " + k + "Events : List Ev := [" + strings.Join(evs, ", ") + "]\n")
 	}
-	for _, k := range []string{"sortCompare", "window", "join", "stages"} {
+	for _, k := range []string{"sortCompare", "window", "join", "stages", "vars"} {
 		sb.WriteString("def decisions" + strings.ToUpper(k[:1]) + k[1:] + " : List String :=\n  " + leanStrList(f.Decisions[k]) + "\n\n")
 	}
 	for _, fn := range []string{"ComparisonExpr", "BinaryExpr", "UnaryExpr"} {
